@@ -179,7 +179,16 @@ def prove_eq(facts,a,b):
     if a==b: return True
     if a is None or b is None: return False
     try:
-        if lin(a,facts)==lin(b,facts): return True
+        la=lin(a,facts); lb=lin(b,facts)
+        if la==lb: return True
+        d={k:la.get(k,0)-lb.get(k,0) for k in set(la)|set(lb)}
+        d={k:v for k,v in d.items() if v!=0}
+        for f in facts:
+            if f[0]!='eq': continue
+            lx=lin(f[1],[]); ly=lin(f[2],[])
+            e={k:lx.get(k,0)-ly.get(k,0) for k in set(lx)|set(ly)}
+            e={k:v for k,v in e.items() if v!=0}
+            if e and (d==e or d=={k:-v for k,v in e.items()}): return True
     except Exception: pass
     return prove_le(facts,a,b) and prove_le(facts,b,a)
 BIG=re.compile(r'BigInt|BigUint')
@@ -239,7 +248,23 @@ def subst_term(t,mapping):
     if t[0]=='sc' and t in mapping: return mapping[t]
     return tuple(subst_term(x,mapping) if isinstance(x,tuple) else x for x in t)
 LOSSY_BIGINT=re.compile(r'::modpow$|::modinv$|Roots::(sqrt|cbrt|nth_root)$|BigU?int::(sqrt|cbrt|nth_root)$|Integer::(div_floor|mod_floor|div_mod_floor|div_rem|div_ceil|gcd|lcm)$|::div_euclid$|::rem_euclid$|ops::(Shr|Shl|BitAnd|BitOr|BitXor)(Assign)?::|::trailing_zeros$|::set_bit$')
+FACTS=None   # set by props/exact.prepare: gives access to promoted constants
 PRECONDS={}   # function name -> list of (rel, a, b, text): obligations lifted to the call sites
+def loop_headers(fn):
+    """targets of back edges of the live CFG: a path that reaches one is not decided by the typing"""
+    heads=set(); color={}
+    stack=[(0,iter(fn.succ(0)))]; color[0]=1
+    live=fn.live_blocks()
+    while stack:
+        b,it=stack[-1]; adv=False
+        for t in it:
+            if t not in live: continue
+            if color.get(t)==1: heads.add(t)
+            elif t not in color:
+                color[t]=1; stack.append((t,iter(fn.succ(t)))); adv=True; break
+        if not adv:
+            color[b]=2; stack.pop()
+    return heads
 class An:
     def __init__(self,fn,kind,lift=False,arg_offset=0,scale_params=()):
         self.fn=fn; self.kind=kind; self.viol=[]; self.undec=[]; self.ok=0; self.paths=0; self.lift=lift; self.lifted=[]
@@ -284,6 +309,9 @@ class An:
     def run(self):
         s=State()
         for i in range(1,self.fn.argc+1): s.store[i]=self.mkarg(i)
+        for i in sorted(self.scale_params):
+            if self.tyof(i).lstrip('&').startswith('u'): s.facts.append(('le',TERM0,('par',i)))     # unsigned parameter
+        self.loop_heads=loop_headers(self.fn)
         if self.kind=='rescale':
             # the summary used at call sites: "same value at scale T provided T >= current scale"
             tgt=[i for i in sorted(self.scale_params)]
@@ -313,6 +341,9 @@ class An:
         if o['k'] in('copy','move'): return self.read(s,o['pl'])
         if o['k']=='const':
             if 'int' in o: return ('int',int(o['int']))
+            if 'promoted' in o and FACTS is not None:
+                pv=FACTS.promoted_value(self.fn,o['promoted'])
+                if pv and pv[0]=='int': return ('ref',('int',pv[1]))
             return ('const',o.get('s'))
         return UNK
     def write(self,s,pl,v):
@@ -340,7 +371,7 @@ class An:
     def dfs(self,bid,s,onpath):
         fn=self.fn; b=fn.blocks[bid]
         if b['cleanup'] or self.paths>3000: return
-        if bid in onpath: self.undec.append('loop'); return
+        if bid in onpath or bid in getattr(self,'loop_heads',()): self.undec.append('loop'); self.loops=getattr(self,'loops',0)+1; return
         onpath=onpath|{bid}
         for st in b['st']:
             if st['s']=='assign': self.assign(s,st)
@@ -490,6 +521,16 @@ class An:
         out=self.deref(s,s.store.get(1+self.off if assign else 0,UNK))
         if kind and kind.startswith('rounded-'):
             self.ok+=1; return
+        if kind=='pow10':
+            out=self.deref(s,s.store.get(0,UNK))
+            if not isinstance(out,IntV) or not isinstance(out.val,dict): self.undec.append('ret not a tracked integer: %r'%(out,)); return
+            val=out.val
+            for k_,v_ in s.subst.items(): val=psub_sym(val,k_,v_)
+            tgt=('par',sorted(self.scale_params)[0])
+            if red(val)!=P(1) or not prove_eq(s.facts,out.dim,tgt):
+                self.viol.append('POWER OF TEN: returns %s * 10^(%s), not 10^(%s) facts=%s'%(pshow(red(val)),show(out.dim),show(tgt),[(f[0],show(f[1]),show(f[2])) for f in s.facts][:6]))
+            else: self.ok+=1
+            return
         if kind in('rescale','scale-only'):
             if not isinstance(out,Rec): self.undec.append('ret not rec: %r'%(out,)); return
             tgt=('par',sorted(self.scale_params)[0])
@@ -559,6 +600,13 @@ class An:
         elif re.search(r'cmp::min$|cmp::Ord::min$',d) and T(0) and T(1): v=('min',T(0),T(1))
         elif re.search(r'saturating_sub$',d) and T(0) and T(1): v=('satsub',T(0),T(1))
         elif re.search(r'arithmetic::diff$',d) and T(0) and T(1): v=('tuple',[('ord',T(0),T(1)),('absdiff',T(0),T(1))])
+        elif re.search(r'(core|std)::num::.*::pow$',d) and len(args)==2 and args[0]==('int',10) and isterm(args[1]):
+            v=IntV(P(1),args[1]); v.pow10=True
+        elif re.search(r'Integer::div_rem$',d) and len(args)==2 and isterm(args[0]) and isinstance(args[1],tuple) and args[1] and args[1][0]=='int' and args[1][1]>0:
+            q=('unk','q@%d'%line); r_=('unk','r@%d'%line); c=args[1][1]
+            s.facts.append(('eq',args[0],('add',('mulc',q,c),r_)))
+            s.facts.append(('le',TERM0,q)); s.facts.append(('le',TERM0,r_)); s.facts.append(('le',r_,('int',c-1)))
+            v=('tuple',[q,r_])
         elif re.search(r'arithmetic::ten_to_the(_uint|_u64)?$',res):
             k=T(0)
             if k is None or not prove_le(s.facts,TERM0,k):
